@@ -440,7 +440,54 @@ func hashAttribute(att *expr.AttributeExpr, h hash.Hash64, seen map[string]*uint
 		*res = hashString(t.Name(), h)
 	}
 
+	// Attributes with different validations are described by different
+	// schemas and must produce different hashes.
+	if vh := hashValidation(att.Validation, h); vh != 0 {
+		*res = orderedHash(*res, vh, h)
+	}
+
 	return res
+}
+
+// hashValidation computes a hash of the validations that end up in the schema
+// (all of them except the list of required attributes which hashAttribute
+// handles for objects). It returns 0 if there is none.
+func hashValidation(v *expr.ValidationExpr, h hash.Hash64) uint64 {
+	if v == nil {
+		return 0
+	}
+	var parts []string
+	if len(v.Values) > 0 {
+		parts = append(parts, fmt.Sprintf("enum:%v", v.Values))
+	}
+	if v.Format != "" {
+		parts = append(parts, "format:"+string(v.Format))
+	}
+	if v.Pattern != "" {
+		parts = append(parts, "pattern:"+v.Pattern)
+	}
+	if v.ExclusiveMinimum != nil {
+		parts = append(parts, fmt.Sprintf("exclmin:%v", *v.ExclusiveMinimum))
+	}
+	if v.Minimum != nil {
+		parts = append(parts, fmt.Sprintf("min:%v", *v.Minimum))
+	}
+	if v.ExclusiveMaximum != nil {
+		parts = append(parts, fmt.Sprintf("exclmax:%v", *v.ExclusiveMaximum))
+	}
+	if v.Maximum != nil {
+		parts = append(parts, fmt.Sprintf("max:%v", *v.Maximum))
+	}
+	if v.MinLength != nil {
+		parts = append(parts, fmt.Sprintf("minlen:%v", *v.MinLength))
+	}
+	if v.MaxLength != nil {
+		parts = append(parts, fmt.Sprintf("maxlen:%v", *v.MaxLength))
+	}
+	if len(parts) == 0 {
+		return 0
+	}
+	return hashString(strings.Join(parts, ";"), h)
 }
 
 func hashString(s string, h hash.Hash64) uint64 {
